@@ -8,6 +8,7 @@
 
 #include <openssl/ssl.h> // for SSL_CTX
 
+#include <exception> // for std::exception_ptr
 #include <memory> // for std::unique_ptr
 #include <string_view> // for std::string_view
 
@@ -35,6 +36,7 @@ struct SocketTlsImpl final : public SocketImpl
   bool isReadable = false;  ///< Flag whether Driver has deemed us readable
   bool isWritable = false;  ///< Flag whether Driver has deemed us writable
   bool driverSendSuppressed = false;  ///< Flag whether Driver send polling was suppressed
+  std::exception_ptr pendingError;  ///< Socket failure raised inside a BIO callback, to be rethrown outside of OpenSSL
 
   SocketTlsImpl(int family,
                 int type,
